@@ -11,9 +11,10 @@ coming from ONE bucket's leaf ends the WHOLE key level; it is classified by a se
 operational reference and reported as KNOWN-FINDING, every other disagreement is a VIOLATION.
 """
 import itertools
+import operator
 from collections import OrderedDict
 
-from glom import glom, T, Val, SKIP, STOP, Auto, Sum, Flatten, Merge
+from glom import glom, T, Val, SKIP, STOP, Auto, Sum, Flatten, Merge, Fold
 from glom.grouping import Group, First, Max, Min, Avg, Limit
 from glom.reduction import Count
 
@@ -48,7 +49,18 @@ class _FlattenTuple:
         return Flatten(init=tuple)
 
 
-AGGS = {'flatten_tuple': _FlattenTuple, 'first': First, 'max': Max, 'min': Min, 'avg': Avg, 'sum': Sum, 'count': Count, 'flatten': Flatten, 'merge': Merge}
+class _Product:
+    """Fold with a start value that is not falsy; the running value becomes 0 as soon as an item is 0"""
+    def __new__(cls):
+        return Fold(T, init=lambda: 1, op=operator.mul)
+
+
+class _SumFromMinusOne:
+    def __new__(cls):
+        return Sum(init=lambda: -1)
+
+
+AGGS = {'prod': _Product, 'sum_m1': _SumFromMinusOne, 'flatten_tuple': _FlattenTuple, 'first': First, 'max': Max, 'min': Min, 'avg': Avg, 'sum': Sum, 'count': Count, 'flatten': Flatten, 'merge': Merge}
 FNLEAF = {'neg': (lambda: (lambda x: -x), lambda x: -x)}
 
 
@@ -118,6 +130,13 @@ def loop(term, items):
         return sum(items) / float(len(items))
     if name == 'sum':
         return sum(items)
+    if name == 'prod':
+        out = 1
+        for it in items:
+            out *= it
+        return out
+    if name == 'sum_m1':
+        return -1 + sum(items)
     if name == 'count':
         return len(items)
     if name == 'flatten':
@@ -209,6 +228,10 @@ def op_step(term, item, st):
         return st.acc[0] / st.acc[1]
     elif name == 'sum':
         st.acc = (st.acc or 0) + item
+    elif name == 'prod':
+        st.acc = (1 if st.acc is None else st.acc) * item
+    elif name == 'sum_m1':
+        st.acc = (-1 if st.acc is None else st.acc) + item
     elif name == 'count':
         st.acc = (st.acc or 0) + 1
     elif name == 'flatten':
@@ -253,6 +276,9 @@ def desc(v):
     return (type(v).__name__, repr(v))
 
 
+NAN = float('nan')
+
+
 def mk_items(kind, seq):
     if kind == 'ints':
         return [x - 1 for x in seq]     # item alphabet {-1, 0, 1, 2}: a falsy running value followed by a smaller item is reachable
@@ -265,7 +291,21 @@ def mk_items(kind, seq):
     if kind == 'tuples':
         menu = [(1,), (2, 3), (), (4, 5, 6)]
         return [menu[i] for i in seq]
+    if kind == 'mixed':
+        # equal values of different types (1, 1.0, True) and an unordered one (NaN): min / max must return what Python's min() / max() return
+        return [[1, 1.0, True, NAN][i] for i in seq]
     raise ValueError(kind)
+
+
+def scribble(v, depth=0):
+    if isinstance(v, dict):
+        for x in list(v.values()):
+            scribble(x, depth + 1)
+        v['__scribbled__'] = depth
+    elif isinstance(v, list):
+        for x in v:
+            scribble(x, depth + 1)
+        v.append('__scribbled__')
 
 
 def run_case(case):
@@ -290,6 +330,7 @@ def run_case(case):
             return R({'expected': repr(want), 'observed': repr(got) if err is None else 'raised %r' % (err,), **where}, 'mismatch')
         if items != mk_items(kind, seq):
             return R({'expected': 'items unchanged', 'observed': repr(items), 'spec': repr(spec)}, 'mutated')
+        scribble(got)       # the caller goes on to modify the result it was handed: later evaluations must not see that
     return R(None, 'ok', nontrivial=len(seq_a) > 0, steps=len(seq_a) * 2 + len(seq_b), tags=set(flat_tags(term)))
 
 
@@ -303,7 +344,7 @@ def flat_tags(term):
 
 
 INT_LEAVES = [['list', 'T'], ['list', 'dbl'], ['list', 'skipodd'], ['list', 'stop3'], ['agg', 'first'], ['agg', 'max'], ['agg', 'min'],
-              ['agg', 'avg'], ['agg', 'sum'], ['agg', 'count'], ['fnleaf', 'neg']]
+              ['agg', 'avg'], ['agg', 'sum'], ['agg', 'count'], ['fnleaf', 'neg'], ['agg', 'prod'], ['agg', 'sum_m1']]
 INT_KEYS = ['mod2', 'mod3', 'par', 'const', 'skip2']
 
 
@@ -329,6 +370,9 @@ def gen_specs(tier):
     for k1, k2, k3 in itertools.product(['mod2', 'mod3'] if tier == 'quick' else ['mod2', 'mod3', 'skip2'], repeat=3):
         for leaf in INT_LEAVES:
             specs.append(('ints', ['dict', k1, ['dict', k2, ['dict', k3, leaf]]]))
+    for leaf in (['agg', 'min'], ['agg', 'max'], ['agg', 'first'], ['list', 'T']):
+        specs.append(('mixed', leaf))
+        specs.append(('mixed', ['dict', 'const', leaf]))
     # list- and dict-valued items
     for leaf, kind in ((['agg', 'flatten'], 'lists'), (['agg', 'merge'], 'dicts'), (['agg', 'count'], 'lists'), (['list', 'T'], 'dicts'), (['agg', 'flatten_tuple'], 'tuples')):
         specs.append((kind, leaf))
